@@ -1,16 +1,6 @@
 #![allow(dead_code, unused_variables)]
-mod checks;
-mod compile;
-mod engine;
-mod findings;
-mod gen;
-mod isolate;
-mod jsworker;
-mod model;
-mod oracle;
-mod util;
-
-use engine::Tier;
+use gev::engine::Tier;
+use gev::{checks, compile, isolate};
 
 fn usage() -> ! {
     eprintln!("usage: gev check <Cnn> [--tier quick|thorough] [--seed N]\n       gev replay <file>\n       gev print-sample <Cnn> [--seed N]");
@@ -66,6 +56,20 @@ fn main() {
             };
             let v: serde_json::Value = serde_json::from_str(&text).unwrap_or_else(|_| usage());
             std::process::exit(checks::c20_emit(&v));
+        }
+        "corpus" => {
+            // gev corpus <tmpl|wxss> <dir> <count> <seed>: seed corpus files for the libFuzzer targets, from the generators
+            let kind = args.get(2).cloned().unwrap_or_default();
+            let dir = args.get(3).cloned().unwrap_or_else(|| usage());
+            let count: usize = args.get(4).and_then(|s| s.parse().ok()).unwrap_or(50);
+            let seed: u64 = args.get(5).and_then(|s| s.parse().ok()).unwrap_or(1);
+            std::process::exit(checks::write_corpus(&kind, &dir, count, seed));
+        }
+        "fuzz-replay" => {
+            // gev fuzz-replay <target> <artifact>: run the target's oracle on a saved libFuzzer input
+            let target = args.get(2).cloned().unwrap_or_default();
+            let data = std::fs::read(args.get(3).cloned().unwrap_or_else(|| usage())).unwrap_or_else(|_| usage());
+            std::process::exit(checks::fuzz_replay(&target, &data));
         }
         "ast" => {
             // debugging aid: gev ast <file.wxml> prints the parsed AST and diagnostics
